@@ -32,7 +32,8 @@ def orient(arr, rev, trans):
 
 
 def complex_of(arr, order, band_dim, collapsed):
-    """independent statement of IQ/QI pair extraction along band_dim (after orientation)"""
+    """independent statement of the pair extraction along band_dim (after orientation): IQ / QI real and imaginary
+    parts, MP / PM magnitude and phase (unsigned integer phases are fractions of a turn, 2*pi*p / 2**bits)"""
     a = numpy.moveaxis(arr, band_dim, -1)
     first = a[..., 0::2].astype('float64')
     second = a[..., 1::2].astype('float64')
@@ -40,6 +41,11 @@ def complex_of(arr, order, band_dim, collapsed):
         z = first + 1j * second
     elif order == 'QI':
         z = second + 1j * first
+    elif order in ('MP', 'PM'):
+        mag, ph = (first, second) if order == 'MP' else (second, first)
+        if arr.dtype.kind == 'u':
+            ph = ph * (2.0 * numpy.pi / float(1 << (8 * arr.dtype.itemsize)))
+        z = mag * numpy.exp(1j * ph)
     else:
         raise ValueError(order)
     z = z.astype('complex64')
@@ -72,6 +78,32 @@ def mk_fmt(f, raw_dtype):
     raise ValueError(f)
 
 
+def sentinel(dt):
+    """the value write-mode stores are pre-set to (never a written sample in the generated families)"""
+    dt = numpy.dtype(dt)
+    return -1 if dt.kind != 'u' else int(numpy.iinfo(dt).max)
+
+
+def has_polar(spec):
+    """does the tree contain a magnitude / phase complex format (float arithmetic: compare with a tolerance)"""
+    f = spec.get('fmt')
+    if f and f['kind'] == 'complex' and f['order'] in ('MP', 'PM'):
+        return True
+    if 'parent' in spec and has_polar(spec['parent']):
+        return True
+    return any(has_polar(c) for c in spec.get('children', []))
+
+
+def arrays_equal(a, b, approx=False):
+    """same shape and same elements; `approx` (magnitude / phase formats only) compares with a relative tolerance far
+    below the distance between the values of distinct stored samples"""
+    if a.shape != b.shape:
+        return False
+    if approx:
+        return bool(numpy.allclose(a, b, rtol=1e-5, atol=1e-4))
+    return bool(numpy.array_equal(a, b))
+
+
 class Builder:
     def __init__(self, mode='r', tmpdir=None, preset=None):
         self.mode = mode
@@ -101,7 +133,7 @@ class Builder:
             if self.preset is not None:
                 arr = numpy.array(self.preset.pop(0)).astype(arr.dtype).reshape(arr.shape)
             if self.mode == 'w':
-                store = numpy.full(arr.shape, -1 if arr.dtype.kind != 'u' else 255, dtype=arr.dtype)
+                store = numpy.full(arr.shape, sentinel(arr.dtype), dtype=arr.dtype)
             else:
                 store = arr
             oriented = orient(arr, rev, trans)
@@ -152,7 +184,16 @@ class Builder:
                 # raw view of a subset: only asserted for shape (content is checked through .full)
                 raw = None
             else:
-                raise ValueError('raw-basis subsets are not generated')
+                # documented meaning of a raw-basis definition: the parent's orientation / format applied to raw[def]
+                ps = spec['parent']
+                if po.raw is None:
+                    raise ValueError('raw-basis subset of a parent without a raw oracle')
+                prev = tuple(ps['rev']) if ps.get('rev') else None
+                ptrans = tuple(ps['trans']) if ps.get('trans') is not None else None
+                _, _, _, full = fmt_shape_dtype(ps, orient(po.raw[d], prev, ptrans))
+                if sq:
+                    full = full.reshape(tuple(s for s in full.shape if s != 1))
+                raw = None
             return seg, Oracle(raw, full)
         if k == 'bands':
             built = [self.build(c) for c in spec['children']]
@@ -225,7 +266,7 @@ def oriented_shape(shape, trans):
 
 
 def rand_complex_leaf(rng):
-    """leaf with a ComplexFormatFunction (IQ/QI; int16) — band axis after transpose, collapsed or kept"""
+    """leaf with a ComplexFormatFunction (IQ/QI on int16, MP/PM on uint16) — band axis after transpose, collapsed or kept"""
     ndim = rng.choice([2, 3, 3])
     shape = rand_shape(rng, ndim, 1, 5)
     rev, trans = rand_orient(rng, ndim)
@@ -235,9 +276,11 @@ def rand_complex_leaf(rng):
     # the oriented band axis must have even size (2 if collapsed)
     src_axis = trans[bd] if trans is not None else bd
     shape[src_axis] = 2 if collapsed else 2 * rng.randint(1, 3)
-    spec = {'kind': rng.choice(['array', 'memmap', 'fileread']), 'shape': shape, 'dtype': 'int16', 'base': rng.randint(0, 3) * 100,
+    order = rng.choice(['IQ', 'QI', 'IQ', 'QI', 'MP', 'PM'])
+    spec = {'kind': rng.choice(['array', 'memmap', 'fileread']), 'shape': shape, 'dtype': 'int16' if order in ('IQ', 'QI') else 'uint16',
+            'base': rng.randint(0, 3) * 100 + 1,
             'rev': rev, 'trans': trans,
-            'fmt': {'kind': 'complex', 'order': rng.choice(['IQ', 'QI']), 'band_dim': bd, 'collapsed': collapsed}}
+            'fmt': {'kind': 'complex', 'order': order, 'band_dim': bd, 'collapsed': collapsed}}
     if spec['kind'] != 'array':
         spec['offset'] = rng.choice([0, 4])
         spec['trail'] = 0
@@ -248,6 +291,9 @@ def rand_lut_leaf(rng):
     shape = rand_shape(rng, 2, 1, 6)
     rev, trans = rand_orient(rng, 2)
     table = [(i * 37 + 11) % 256 for i in range(256)]
+    if rng.random() < 0.35:
+        m = rng.randint(2, 3)
+        table = [[(i * 37 + 11 + 101 * c) % 256 for c in range(m)] for i in range(256)]
     return {'kind': 'array', 'shape': shape, 'dtype': 'uint8', 'base': rng.randint(0, 100), 'rev': rev, 'trans': trans,
             'fmt': {'kind': 'lut', 'table': table}}
 
@@ -266,6 +312,8 @@ def full_shape_of(spec):
             raw.insert(spec['band_dim'], len(spec['children']))
         o = oriented_shape(raw, spec.get('trans'))
         f = spec.get('fmt')
+        if f is not None and f['kind'] == 'lut' and isinstance(f['table'][0], list):
+            return list(o) + [len(f['table'][0])]
         if f is None or f['kind'] == 'lut':
             return o
         if f['kind'] == 'complex':
@@ -274,6 +322,19 @@ def full_shape_of(spec):
             o = list(o)
             o[f['band_dim']] //= 2
             return o
+    if k == 'subset' and spec.get('basis', 'formatted') == 'raw':
+        # formatted shape of the parent's orientation / format applied to the raw selection
+        ps = spec['parent']
+        rawp = raw_shape_of(ps)
+        sel = [len(range(*slice(*d).indices(n))) for n, d in zip(rawp, spec['def'])]
+        o = oriented_shape(sel, ps.get('trans'))
+        f = ps.get('fmt')
+        if f is not None and f['kind'] == 'complex':
+            o = o[:f['band_dim']] + o[f['band_dim'] + 1:] if f['collapsed'] else \
+                o[:f['band_dim']] + [o[f['band_dim']] // 2] + o[f['band_dim'] + 1:]
+        elif f is not None and f['kind'] == 'lut' and isinstance(f['table'][0], list):
+            o = list(o) + [len(f['table'][0])]
+        return [n for n in o if not (spec.get('squeeze', True) and n == 1)]
     if k == 'subset':
         p = full_shape_of(spec['parent'])
         out = []
@@ -283,6 +344,20 @@ def full_shape_of(spec):
                 continue
             out.append(ln)
         return out
+    raise ValueError(k)
+
+
+def raw_shape_of(spec):
+    """raw shape of a node that has an orientation of its own (not a subset)"""
+    k = spec['kind']
+    if k in ('array', 'memmap', 'fileread', 'blocks'):
+        return list(spec['shape'])
+    if k == 'reorient':
+        return full_shape_of(spec['parent'])
+    if k == 'bands':
+        raw = list(full_shape_of(spec['children'][0]))
+        raw.insert(spec['band_dim'], len(spec['children']))
+        return raw
     raise ValueError(k)
 
 
@@ -323,7 +398,14 @@ def rand_blocks(rng, depth):
         cshape = [b - a for a, b in c]
         ch = rand_tree(rng, depth - 1, shape=cshape, base=10000 * (i + 1))
         children.append(ch)
-        arrangement.append([[a, b, 1] for a, b in c])
+        if rng.random() < 0.12:
+            # block definition running backwards on some axes: slice(b-1, a-1, -1)
+            flags = [rng.random() < 0.6 for _ in c]
+            if not any(flags):
+                flags[rng.randrange(len(flags))] = True
+            arrangement.append([[b - 1, (a - 1 if a > 0 else None), -1] if fl else [a, b, 1] for (a, b), fl in zip(c, flags)])
+        else:
+            arrangement.append([[a, b, 1] for a, b in c])
     spec = {'kind': 'blocks', 'shape': shape, 'children': children, 'arrangement': arrangement, 'fill': -7}
     spec['rev'], spec['trans'] = rand_orient(rng, ndim, 0.4, 0.3)
     return spec
@@ -387,6 +469,18 @@ def rand_tree(rng, depth, shape=None, base=None):
         pshape = full_shape_of(parent)
         if any(n == 0 for n in pshape) or not pshape:
             return parent
+        if parent['kind'] != 'subset' and rng.random() < 0.4:
+            # raw-basis definition (nitf.py builds its padded blocks this way); over a non-identity format function
+            # (transform_raw_slice of the complex / LUT classes, repaired by F2F3 / F4) less often
+            f = parent.get('fmt')
+            if f is None or rng.random() < 0.3:
+                rshape = raw_shape_of(parent)
+                if rshape and all(n > 0 for n in rshape):
+                    d = [rand_norm_slice(rng, n, steps=(1, 1, 1, -1, 2)) for n in rshape]
+                    if f is not None and f['kind'] == 'complex':
+                        ax = parent['trans'][f['band_dim']] if parent.get('trans') is not None else f['band_dim']
+                        d[ax] = [0, rshape[ax], 1]
+                    return {'kind': 'subset', 'parent': parent, 'def': d, 'squeeze': rng.random() < 0.6, 'basis': 'raw'}
         d = [rand_norm_slice(rng, n, steps=(1, 1, 1, -1, 2)) for n in pshape]
         return {'kind': 'subset', 'parent': parent, 'def': d, 'squeeze': rng.random() < 0.7, 'basis': 'formatted'}
     if r < 0.6:
@@ -395,17 +489,47 @@ def rand_tree(rng, depth, shape=None, base=None):
         if not pshape:
             return parent
         rev, trans = rand_orient(rng, len(pshape))
-        return {'kind': 'reorient', 'parent': parent, 'rev': rev, 'trans': trans}
+        return maybe_complex(rng, {'kind': 'reorient', 'parent': parent, 'rev': rev, 'trans': trans})
     if r < 0.8:
-        return rand_blocks(rng, depth)
-    return rand_bands(rng, depth)
+        return maybe_complex(rng, rand_blocks(rng, depth))
+    return maybe_complex(rng, rand_bands(rng, depth))
+
+
+def _plain(spec):
+    if spec.get('fmt'):
+        return False
+    if 'parent' in spec and not _plain(spec['parent']):
+        return False
+    return all(_plain(c) for c in spec.get('children', []))
+
+
+def maybe_complex(rng, spec, p=0.15):
+    """now and then a ComplexFormatFunction (IQ / QI, band axis collapsed or kept) on a re-orientation or an aggregate whose
+    (integer) raw data has an axis of even length"""
+    if rng.random() >= p or not _plain(spec):
+        return spec
+    try:
+        o = oriented_shape(raw_shape_of(spec), spec.get('trans'))
+    except Exception:
+        return spec
+    cand = [j for j, n in enumerate(o) if n >= 2 and n % 2 == 0]
+    if not cand or len(o) < 2:
+        return spec
+    bd = rng.choice(cand)
+    spec['fmt'] = {'kind': 'complex', 'order': rng.choice(['IQ', 'QI']), 'band_dim': bd,
+                   'collapsed': o[bd] == 2 and rng.random() < 0.6}
+    return spec
 
 
 def tree_class(spec):
     """coarse structural class of a tree (for coverage accounting)"""
     k = spec['kind']
+    f = spec.get('fmt')
     tag = k + ('R' if spec.get('rev') else '') + ('T' if spec.get('trans') is not None else '') + \
-        ('F' + spec['fmt']['kind'][0] if spec.get('fmt') else '')
+        ('F' + f['kind'][0] + (f['order'] + ('c' if f['collapsed'] else 'k') if f['kind'] == 'complex' else
+                               ('2' if isinstance(f['table'][0], list) else '1')) if f else '') + \
+        ('raw' if k == 'subset' and spec.get('basis') == 'raw' else '') + \
+        ('rev' if k == 'blocks' and any(x[2] != 1 for a in spec['arrangement'] for x in a) else '')
     if k in ('reorient', 'subset'):
         return tag + '(' + tree_class(spec['parent']) + ')'
     if k in ('bands', 'blocks'):
